@@ -13,6 +13,7 @@ Line-protocol driver for C04 (all numbers decimal, hashes/bytes hex; float64 val
   P hash j                                      -> hex of computePriority (real Keccak-256)
   MR | MC round | MW round (rewind onto another branch + its clear) | MQ round index step store -> ok | ok | ok | origin [stale-branch]         SortitionManager cache (stateful)
   SP verdict                                    -> accept|refuse|crash                        Server.verifyPriority given VrfVerifyPriority's verdict
+  PP msgStep verdictAtPropose verdictAtMsgStep  -> accept|refuse|crash                        is a priority message recorded (Proposal pins Step)
   SS nodeRound nodeIndex msgRound msgIndex verdict -> accept|refuse|crash                     Server.verifySortition given VrfVerifySortition's verdict
   VS total threshold stake sub (ok:hash|err) [P:k:v ...]            -> verdict | need …
   VP total threshold stake sub (ok:hash|err) priority [P:k:v ...]   -> verdict | need …
@@ -127,6 +128,10 @@ def stepPure (line : String) : String :=
       match parseVerdict v with
       | some v => showNode (nodePriorityOutcome v)
       | none => "bad-op"
+    | ["PP", ms, v1, vm] =>
+      match ms.toNat?, parseVerdict v1, parseVerdict vm with
+      | some ms, some v1, some vm => showNode (proposalOutcome ms (fun st => if st = proposeStep then v1 else vm))
+      | _, _, _ => "bad-op"
     | ["SS", cr, ci, mr, mi, v] =>
       match cr.toNat?, ci.toNat?, mr.toNat?, mi.toNat?, parseVerdict v with
       | some cr, some ci, some mr, some mi, some v => showNode (nodeSortitionOutcome ⟨cr, ci⟩ mr mi v)
